@@ -32,8 +32,8 @@ import (
 
 const c24NTx = 4
 
-// cases served by one node instance before it is replaced by a fresh one
-const c24Recycle = 192
+// cases served by one cache database before it is replaced by a fresh one
+const c24Recycle = 256
 
 // ledger/cache state of one transaction
 const (
@@ -176,6 +176,21 @@ func c24NewInst(tier *c24Tier, st [c24NTx]int) (*c24Inst, error) {
 	}
 	in.baseline = m.Store.VerifDumpCache("CACHETRANSACTION")
 	return in, nil
+}
+
+// renewCache swaps in an empty cache database and re-creates the baseline image.
+func (in *c24Inst) renewCache() error {
+	if err := in.m.Store.VerifRenewCache(); err != nil {
+		return err
+	}
+	for i := 0; i < c24NTx; i++ {
+		if c24InCache(in.st[i]) {
+			if err := in.m.Store.CacheStoreTransaction(in.txs[i]); err != nil {
+				return err
+			}
+		}
+	}
+	return in.restore()
 }
 
 func (in *c24Inst) close() {
@@ -330,6 +345,20 @@ func (in *c24Inst) enabled(cfg []c24Agg) []c24Event {
 }
 
 type c24Finding struct{ key, desc string }
+
+// c24Runs: the commitments/responses classes are read by expiry only; every
+// other event is enumerated with all proposals in the first class.
+func c24Runs(cfg []c24Agg, e c24Event) bool {
+	if e.kind == "expire" {
+		return true
+	}
+	for _, a := range cfg {
+		if a.comp != 0 {
+			return false
+		}
+	}
+	return true
+}
 
 var c24Commitments = func() []crypto.Key {
 	ks := make([]crypto.Key, 16)
@@ -652,6 +681,9 @@ func TestMC_C24(t *testing.T) {
 			}
 			in.install(cfg)
 			for _, e := range in.enabled(cfg) {
+				if !c24Runs(cfg, e) {
+					continue
+				}
 				ref := union
 				if e.kind != "expire" && e.kind != "retry" && e.kind != "reset" {
 					ref |= e.mask
@@ -778,11 +810,10 @@ func TestMC_C24(t *testing.T) {
 				c.Require(false, "instance reuse is unsound for %s %s %v: %v", vec, cs, seq, err)
 			}
 			// deleted queue keys pile up in Badger's memtable and slow every
-			// iterator down: continue on a fresh node after a while
+			// iterator down: continue on a fresh cache database after a while
 			if cases++; cases%c24Recycle == 0 {
-				in.close()
-				in, err = c24NewInst(tier, st)
-				c.Require(err == nil, "fixture %s: %v", vec, err)
+				err := in.renewCache()
+				c.Require(err == nil, "cache renewal %s: %v", vec, err)
 				if err != nil {
 					panic(err)
 				}
@@ -800,6 +831,9 @@ func TestMC_C24(t *testing.T) {
 			evs := in.enabled(cfg)
 			cs := c24CfgString(tier, cfg)
 			for _, e := range evs {
+				if !c24Runs(cfg, e) {
+					continue
+				}
 				ref := union
 				if e.kind != "expire" && e.kind != "retry" && e.kind != "reset" {
 					ref |= e.mask
@@ -819,6 +853,9 @@ func TestMC_C24(t *testing.T) {
 					c.Require(false, "instance reuse is unsound: %v", err)
 				}
 				for _, e2 := range evs2 {
+					if !c24Runs(cfg, e2) {
+						continue
+					}
 					ref2 := ref
 					if e2.kind != "expire" && e2.kind != "retry" && e2.kind != "reset" {
 						ref2 |= e2.mask
